@@ -15,16 +15,17 @@ class WrapperNode(XmlNode):
     Args:
         parent: The parent node
         qname: The wrapper element qualified name
+        ns_map: The wrapper element namespace prefix-URI map
 
     Attributes:
         ns_map: The node namespace prefix-URI map
     """
 
-    def __init__(self, parent: ElementNode, qname: str):
+    def __init__(self, parent: ElementNode, qname: str, ns_map: dict | None = None):
         """Initialize the xml node."""
         self.parent = parent
         self.qname = qname
-        self.ns_map = parent.ns_map
+        self.ns_map = parent.ns_map if ns_map is None else ns_map
 
     def bind(
         self, qname: str, text: str | None, tail: str | None, objects: list
